@@ -162,7 +162,7 @@ fn check_tour(lab: &Lab, kind: &str, vehicle: usize, seq: &[Visit], report: &mut
 
 pub fn run(ctx: &RunCtx) -> Report {
     let mut report = Report::new("exploration");
-    let max_len = ctx.tier.pick(3, 4);
+    let max_len = ctx.tier.pick(3, 5);
     let all = sequences(&tasks(), max_len);
     let nveh = vehicles().len();
     let chunk = 500;
